@@ -603,6 +603,9 @@ class Family:
                 nf, ns = noop_update_checks(root)
                 findings += nf
                 stats.update(ns)
+                jf, js = interrupted_checks(root)
+                findings += jf
+                stats.update(js)
             if prop in ("C16", "C04"):
                 sf, ss = size_independence(root, tier)
                 findings += sf
@@ -681,6 +684,62 @@ def noop_update_checks(root):
                 tempfile.tempdir = saved
                 shutil.rmtree(d, ignore_errors=True)
     return findings[:2], {"noop_update_trials": n}
+
+
+def interrupted_checks(root):
+    """C15: an operation left through KeyboardInterrupt / SystemExit (raised inside a user callable) has changed
+    nothing and leaves no temporary file behind, like one that raises an ordinary exception"""
+    tf = C.import_tinyflux()
+    findings, n = [], 0
+    T = V.dt_of(G.T0)
+
+    def interrupt(exc):
+        def f(x):
+            raise exc("the user pressed Ctrl-C / the interpreter is exiting")
+        return f
+
+    for exc in (KeyboardInterrupt, SystemExit, GeneratorExit):
+        for au in (True, False):
+            for name, call in [
+                ("update_all(fields=callable)", lambda db, exc=exc: db.update_all(fields=interrupt(exc))),
+                ("update(q, tags=callable)", lambda db, exc=exc: db.update(tf.TagQuery().a == "x", tags=interrupt(exc))),
+                ("remove(q.test(f))", lambda db, exc=exc: db.remove(tf.TagQuery().a.test(interrupt(exc)))),
+                ("measurement('m').update_all(time=callable)", lambda db, exc=exc: db.measurement("m").update_all(time=interrupt(exc))),
+            ]:
+                d = tempfile.mkdtemp(prefix="intr_", dir=root)
+                tmpd = os.path.join(d, "tmp")
+                os.mkdir(tmpd)
+                path = os.path.join(d, "db.csv")
+                saved = tempfile.tempdir
+                tempfile.tempdir = tmpd
+                try:
+                    db = tf.TinyFlux(path, auto_index=au)
+                    db.insert_multiple([tf.Point(time=T, measurement="m", tags={"a": "x"}, fields={"v": i}) for i in range(3)])
+                    if not au and "remove" in name:
+                        pass
+                    before = open(path, "rb").read()
+                    got = None
+                    try:
+                        call(db)
+                    except BaseException as e:
+                        got = type(e)
+                    n += 1
+                    after = open(path, "rb").read()
+                    ls = (sorted(os.listdir(tmpd)), sorted(x for x in os.listdir(d) if x != "tmp"))
+                    try:
+                        db.close()
+                    except Exception:
+                        pass
+                    if got is exc and (after != before or ls != ([], ["db.csv"])):
+                        findings.append(Finding(
+                            "impl-vs-spec",
+                            f"auto_index={au}: {name} left through {exc.__name__}: file bytes "
+                            f"{'changed' if after != before else 'unchanged'}, directories afterwards {ls}",
+                            dict(family="io-interrupted", scenario=name, exc=exc.__name__, auto_index=au)))
+                finally:
+                    tempfile.tempdir = saved
+                    shutil.rmtree(d, ignore_errors=True)
+    return findings[:2], {"interrupted_trials": n}
 
 
 def mode_checks(root, tier):
@@ -821,6 +880,15 @@ def replay(payload):
         root = tempfile.mkdtemp(prefix="vf_io_replay_")
         try:
             fs, _ = noop_update_checks(root)
+            for f in fs:
+                print(f.summary)
+            return bool(fs)
+        finally:
+            shutil.rmtree(root, ignore_errors=True)
+    if payload.get("family") == "io-interrupted":
+        root = tempfile.mkdtemp(prefix="vf_io_replay_")
+        try:
+            fs, _ = interrupted_checks(root)
             for f in fs:
                 print(f.summary)
             return bool(fs)
